@@ -106,10 +106,19 @@ type faultRun struct {
 	fails  []*Failure
 	dist   []uint64
 	digest *Digest
+	hung   bool
 }
 
 func (fr *faultRun) observe(kind, desc, input string, o *comp.Options, d *Disk, base string) comp.Result {
+	if fr.hung {
+		// a hang was already reported for this run: every further variant of the same program
+		// would very likely cost its whole tick budget again
+		return comp.Result{}
+	}
 	res := compileOn(input, o, d)
+	if res.Budget != "" {
+		fr.hung = true
+	}
 	st := fr.st
 	st.Evaluations++
 	st.CompilerTicks += res.Ticks
@@ -239,7 +248,11 @@ func faultMinimize(oracle string, rp *FaultReplay) *FaultReplay {
 	}
 	budget := 1500
 	if oracle == "hang" || oracle == "runaway-recursion" {
-		budget = 120
+		// every candidate that still hangs costs its whole (reduced) tick budget
+		budget = 40
+		if len(best.Input) > 1500 {
+			budget = 12
+		}
 		tickFactor = 1000
 		defer func() { tickFactor = 20000 }()
 	}
@@ -353,6 +366,9 @@ func (fr *faultRun) exec() {
 	st.Evaluations++
 	fr.digest.Add(base.Key())
 	transp.maybe(input0, &o, &base)
+	if base.Budget != "" {
+		fr.hung = true
+	}
 	if orc, d := unaryOracle(input0, &o, &base); orc != "" {
 		fr.report(orc, d, &FaultReplay{Kind: "baseline", Desc: "unfaulted generated program", Input: input0, Options: o, Disk: healthyDisk(f), Result: &base})
 	}
@@ -386,7 +402,13 @@ func (fr *faultRun) exec() {
 	bk := base.Key()
 	lk := lint0.Key()
 	// S1: EOF at EVERY token boundary (enumerated)
-	for k := 0; k < len(toks); k++ {
+	// (enumerated for programs of up to 400 tokens - the bound stated in DESIGN.md section 6;
+	// a longer program gets 400 evenly spread boundaries, otherwise the cost is quadratic)
+	stride := 1
+	if len(toks) > 400 {
+		stride = (len(toks) + 399) / 400
+	}
+	for k := 0; k < len(toks); k += stride {
 		in := filegen.Join(toks[:k], 1, nil)
 		if k == 0 {
 			in = ""
@@ -397,8 +419,10 @@ func (fr *faultRun) exec() {
 			fr.observe("S1_eof_at_token_boundary", fmt.Sprintf("EOF after token %d of %d", k, len(toks)), in, &o, healthyDisk(f), bk)
 		}
 	}
-	fr.st.InnerPrograms++
-	fr.st.InnerAssign += int64(len(toks))
+	if stride == 1 {
+		fr.st.InnerPrograms++
+		fr.st.InnerAssign += int64(len(toks))
+	}
 	fr2 := rng.New(rng.Sub(fr.seed, "faultplan"))
 	mode := func() *comp.Options {
 		if fr2.P(0.3) {
@@ -514,7 +538,7 @@ func (fr *faultRun) exec() {
 	}
 	// S10: pathological repetition (deep nesting / long chains): stack depth and
 	// super-linear behaviour show here, nowhere else
-	for n := 0; n < 2; n++ {
+	for n := 0; n < 1; n++ {
 		pre := []string{"", "script S {", "script S { if (", "script S { x(", "text T {", "movement M {", "mart M {", "mapscripts M {", "const A = ", "script S { switch (var(A)) {"}[fr2.Intn(10)]
 		pats := [][2]string{{"(", ")"}, {"!(", ")"}, {"if (flag(A)) {", "}"}, {"while {", "}"}, {"do {", "} while (flag(A))"}, {"switch (var(A)) { case 1:", "}"},
 			{"poryswitch(GAME_VERSION) { RUBY {", "} }"}, {"moves(", ")"}, {"format(", ")"}, {"flag(A) && ", ""}, {"flag(A) || ", ""}, {"!", ""}, {"\"x\" ", ""}, {"x(", ")"}, {"[", "]"},
@@ -541,7 +565,10 @@ func (fr *faultRun) exec() {
 	// and "split at a space" loops show here
 	{
 		unit := []string{"A", "é", "9", "x_", "ポ"}[fr2.Intn(5)]
-		k := []int{31, 32, 33, 64, 127, 128, 254, 255, 256, 257, 300, 1000, 4096, 5000}[fr2.Intn(14)]
+		k := []int{31, 32, 33, 64, 127, 128, 254, 255, 256, 257, 300, 1000}[fr2.Intn(12)]
+		if fr2.P(0.05) {
+			k = []int{4096, 5000}[fr2.Intn(2)]
+		}
 		tok := strings.Repeat(unit, k)
 		tmpl := []string{"text T { \"%s\" }", "text T { \"a %s b\" }", "script S { msgbox(\"%s\") }", "script S { msgbox(format(\"%s\")) }", "script S { msgbox(format(\"aa %s bb cc\", 100)) }",
 			"script S { %s }", "script S { x(%s) }", "script S { if (flag(%s)) { } }", "movement M { %s }", "mart M { %s }", "const %s = 1", "script %s { }", "script S { L%s: goto(L%s) }",
